@@ -31,7 +31,7 @@ FUNCS = (1, 2, 3, 4, 5, 0x0E, 0x0F)
 
 
 def cases(tier, seed):
-    n = 6 if tier == 'quick' else 60
+    n = 16 if tier == 'quick' else 60
     out = [{'part': 'codec', 'seed': seed}]
     out += [{'part': 'short', 'seed': seed * 1009 + i, 'n': 14 if tier == 'quick' else 40} for i in range(n)]
     out += [{'part': 'long', 'seed': seed * 1009 + i, 'n': 6} for i in range(n)]
